@@ -121,7 +121,10 @@ def check_log(path, run_name, stdout_is_tty, res, counters, seen, full, stderr_i
             want = expected_choice(g, env, arranged)
             ctx = "[%s] global=%s %s stream=%s terminal=%s" % (run_name, g, {v: env[v] for v in VARS if env[v] is not None}, kind, arranged)
             case = {"kind": "c09-env", "env": {k2: ev.get(k2) for k2 in VARS}, "global": g, "stream": kind, "bytes_hex": [], "nums": []}
-            if d["choice"] != want:
+            # an explicit global choice is reported as it is; a decision derived from the environment is "colour
+            # enabled" or "colour disabled" - the statement does not say which of the two enabling variants is reported
+            agrees = d["choice"] == want or (g == "Auto" and want == "Always" and d["choice"] == "AlwaysAnsi")
+            if not agrees:
                 res.violation("c09:choice", "%s: AutoStream::choice = %s, the documented precedence gives %s" % (ctx, d["choice"], want), check="c09", case=case)
                 continue
             if d["auto_current_choice"] != current_of(want):
